@@ -26,6 +26,13 @@ def canon(term):
         return (x, neg) if isinstance(x, str) else (None, neg)
     nm = x[0]
     if nm == 'is_zero':
+        v = x[1]
+        if isinstance(v, Lin) and len(v.t) == 1 and list(v.t.values()) == [1]:
+            import exp
+            d = exp.OPAQUE_DEFS.get(list(v.t)[0])
+            if d is not None and d[0] == 'sub_assign':
+                # a - b == 0 is the comparison a == b
+                return ('eq',) + tuple(sorted([_k(d[1]), _k(d[2])], key=repr)), neg
         return ('is_zero', _k(x[1])), neg
     if nm in ('eq', 'ne'):
         a, b = _k(x[1]), _k(x[2])
